@@ -685,6 +685,53 @@ def install(prog):
             return NONE
         return some(Agg('Ordering', (-1, 0, 1)[k], ()))
 
+    @B('re:^(core|std)::f64::(<impl f64>::)?(is_finite|is_nan|is_infinite|is_sign_negative|is_sign_positive|abs|floor|ceil|trunc|round|fract)$', 're:^f64::(is_finite|is_nan|is_infinite|is_sign_negative|is_sign_positive|abs|floor|ceil|trunc|round|fract)$')
+    def b_f64_methods(ctx, a, callee):
+        import math
+        k = callee.rsplit('::', 1)[1]
+        x = D(a[0])
+        if is_sym(x):
+            if k == 'is_finite':
+                return z3.Not(z3.Or(z3.fpIsNaN(x), z3.fpIsInf(x)))
+            if k == 'is_nan':
+                return z3.fpIsNaN(x)
+            if k == 'is_infinite':
+                return z3.fpIsInf(x)
+            if k == 'is_sign_negative':
+                return z3.fpIsNegative(x)
+            if k == 'is_sign_positive':
+                return z3.fpIsPositive(x)
+            if k == 'abs':
+                return z3.fpAbs(x)
+            rm = {'floor': z3.RTN(), 'ceil': z3.RTP(), 'trunc': z3.RTZ(), 'round': z3.RNA()}.get(k)
+            if rm is not None:
+                return z3.fpRoundToIntegral(rm, x)
+            raise Unsupported('f64::%s on a symbolic float' % k)
+        x = float(x)
+        if k == 'is_finite':
+            return math.isfinite(x)
+        if k == 'is_nan':
+            return math.isnan(x)
+        if k == 'is_infinite':
+            return math.isinf(x)
+        if k == 'is_sign_negative':
+            return math.copysign(1.0, x) < 0
+        if k == 'is_sign_positive':
+            return math.copysign(1.0, x) > 0
+        if k == 'abs':
+            return abs(x)
+        if not math.isfinite(x):
+            return x
+        if k == 'floor':
+            return float(math.floor(x))
+        if k == 'ceil':
+            return float(math.ceil(x))
+        if k == 'trunc':
+            return float(math.trunc(x))
+        if k == 'round':
+            return float(math.floor(abs(x) + 0.5)) * (1.0 if x >= 0 else -1.0)
+        return x - float(math.trunc(x))
+
     @B('re:^<&?bool as Not>::not$')
     def b_not(ctx, a, callee):
         return znot(D(a[0]))
